@@ -105,3 +105,50 @@ Proof.
 Qed.
 
 End More.
+
+(* ------------------------------------------------------------------ *)
+(* the same clause for subtraction: a base that differs from the       *)
+(* recorded NEW value at a changed location is reported by  v - d      *)
+(* ------------------------------------------------------------------ *)
+(* where the reverse delta looks: new_path when there is one, else the path *)
+Definition rpath (c : vchange) : path := match vc_new_path c with Some q => q | None => vc_path c end.
+Definition rtpath (c : tchange) : path := match tc_new_path c with Some q => q | None => tc_path c end.
+
+Section SubDetect.
+Variable conv : ty -> value -> option value.
+Variable rem_order : list (path * value) -> list (path * value).
+Variable add_order : list (path * option value) -> list (path * option value).
+
+Theorem sub_detects_value d v c :
+  d_bidir d = true -> pairwise_div (map vc_path (d_val (reverse d))) = true ->
+  In c (d_val d) -> old_mismatch v (rpath c) (Some (vc_new c)) = true ->
+  exists r n, sub conv rem_order add_order d v = Some (r, n) /\ 0 < n.
+Proof.
+  intros B P Hin H. unfold sub. rewrite B.
+  destruct (apply conv rem_order add_order (reverse d) v) as [r n] eqn:E. exists r, n. split; [reflexivity|].
+  change n with (snd (r, n)). rewrite <- E.
+  apply (apply_detects_value_indep conv rem_order add_order (reverse d) v
+           (mkVC (rpath c) None (Some (vc_new c)) (match vc_old c with Some o => o | None => VAtom ANone end))).
+  - cbn. exact B.
+  - exact P.
+  - cbn [reverse d_val]. apply in_map_iff. exists c. split; [reflexivity|exact Hin].
+  - exact H.
+Qed.
+
+Theorem sub_detects_type d v c :
+  d_bidir d = true -> indep_verified (reverse d) = true ->
+  In c (d_type d) -> old_mismatch v (rtpath c) (tc_new c) = true ->
+  exists r n, sub conv rem_order add_order d v = Some (r, n) /\ 0 < n.
+Proof.
+  intros B P Hin H. unfold sub. rewrite B.
+  destruct (apply conv rem_order add_order (reverse d) v) as [r n] eqn:E. exists r, n. split; [reflexivity|].
+  change n with (snd (r, n)). rewrite <- E.
+  apply (apply_detects_type_indep conv rem_order add_order (reverse d) v
+           (mkTC (rtpath c) None (tc_new_ty c) (tc_old_ty c) (tc_new c) (tc_old c))).
+  - cbn. exact B.
+  - exact P.
+  - cbn [reverse d_type]. apply in_map_iff. exists c. split; [reflexivity|exact Hin].
+  - exact H.
+Qed.
+
+End SubDetect.
